@@ -173,11 +173,17 @@ def bidirectional(net):
         net["_internal_data"] = dict()
     solver_vars = ['mdot', 'p', 'mdotslack', 'TOUT', 'T']
     tol_m, tol_p, tol_temp = get_net_options(net, 'tol_m', 'tol_p', 'tol_T')
-    newton_raphson(
-        net, solve_bidirectional, 'bidirectional', solver_vars,
-        [tol_m, tol_p, tol_m, tol_temp, tol_temp],
-        ['branch', 'node', 'node', 'branch', 'node'], 'max_iter_bidirect'
-    )
+    try:
+        newton_raphson(
+            net, solve_bidirectional, 'bidirectional', solver_vars,
+            [tol_m, tol_p, tol_m, tol_temp, tol_temp],
+            ['branch', 'node', 'node', 'branch', 'node'], 'max_iter_bidirect'
+        )
+    except Exception:
+        # an iteration that fails must not leave cached matrix data of this call behind
+        if not get_net_option(net, "reuse_internal_data"):
+            net.pop("_internal_data", None)
+        raise
     if net.converged:
         set_user_pf_options(net, hyd_flag=True)
     if not get_net_option(net, "reuse_internal_data"):
@@ -195,8 +201,14 @@ def hydraulics(net):
         net["_internal_data"] = dict()
     solver_vars = ['mdot', 'p', 'mdotslack']
     tol_m, tol_p, tol_msl = get_net_options(net, 'tol_m', 'tol_p', 'tol_m')
-    newton_raphson(net, solve_hydraulics, 'hydraulics', solver_vars, [tol_m, tol_p, tol_msl],
-                   ['branch', 'node', 'node'], 'max_iter_hyd')
+    try:
+        newton_raphson(net, solve_hydraulics, 'hydraulics', solver_vars, [tol_m, tol_p, tol_msl],
+                       ['branch', 'node', 'node'], 'max_iter_hyd')
+    except Exception:
+        # an iteration that fails must not leave cached matrix data of this call behind
+        if not get_net_option(net, "reuse_internal_data"):
+            net.pop("_internal_data", None)
+        raise
     if net.converged:
         set_user_pf_options(net, hyd_flag=True)
         rerun_hydraulics(net)
